@@ -403,3 +403,31 @@ func (e *env) rawTCPCut(signal, contentType, contentEncoding, framing string, an
 	o.Status = resp.StatusCode
 	return o
 }
+
+// damagedCompressed compresses valid followed by incompressible padding... no: the request itself must stay a valid
+// OTLP message, so the damage goes into the compressed form of the message alone. One byte in the middle third of the
+// compressed stream is replaced (never the first 16 bytes: frame / member header; never the last 8: trailer).
+func damagedCompressed(rng *rand.Rand, algo string, valid []byte) []byte {
+	var buf bytes.Buffer
+	switch algo {
+	case "zstd":
+		w, err := zstd.NewWriter(&buf, zstd.WithEncoderCRC(true), zstd.WithEncoderLevel(zstd.SpeedFastest))
+		if err != nil {
+			panic(err)
+		}
+		_, _ = w.Write(valid)
+		_ = w.Close()
+	default:
+		w := gzip.NewWriter(&buf)
+		_, _ = w.Write(valid)
+		_ = w.Close()
+	}
+	b := buf.Bytes()
+	if len(b) < 40 {
+		return b
+	}
+	lo, hi := 16, len(b)-8
+	i := lo + rng.Intn(hi-lo)
+	b[i] ^= byte(1 + rng.Intn(255))
+	return b
+}
